@@ -391,16 +391,48 @@ def rule_kind_matrix(ctx):
     return obs
 
 
+def _parent_type_table(ctx, obs):
+    """the type a selection is validated against is the type of its own parent: field -> the field's type, inline
+    fragment -> its type condition, named fragment -> its `on`, operation -> the root object"""
+    want = {'Field': 'StoredFieldType.id', 'InlineFragment': 'InlineFragment.type_id', 'Fragment': 'ResolvedFragment.on', 'Operation': 'ResolvedOperation.object_id'}
+    cands = [f for f in ctx.crate('codegen').all_fns() if not f.from_macro and (f.d.get('impl_self') or '').endswith('SelectionParent')
+             and f.d.get('output', '').endswith('schema::TypeId')]
+    if not cands:
+        obs.append(bad('COND-MATRIX', 'parent-type/floor', 'anchor-missing: no `SelectionParent -> TypeId` function found'))
+        return
+    f = cands[0]
+    t = ctx.pv.eval(f, f.body, H.sym_env(f), 0)
+    seen = {}
+    for conds, leaf in P.leaves(t):
+        if leaf[0] == 'diverge':
+            continue
+        kinds = [c[2][1].split('::')[-1] for c in conds if c[0] == 'match' and c[2][0] == 'ctor' and '::SelectionParent::' in c[2][1]]
+        if not kinds:
+            continue
+        seen.setdefault(kinds[0], set()).update(x for x in TM.fields_in(leaf) if x in want.values())
+    for k, w in want.items():
+        inst = 'parent-type/' + k
+        got = seen.get(k)
+        if got is None:
+            obs.append(undecided('COND-MATRIX', inst, 'no alternative of %s handles a %s parent' % (short(f.path), k), f.loc))
+        elif got == {w}:
+            obs.append(ok('COND-MATRIX', inst, 'a selection under a %s parent is validated against %s' % (k, w), f.loc))
+        else:
+            obs.append(bad('COND-MATRIX', inst, 'the type of a %s parent is taken from %s, expected %s' % (k, sorted(got) or 'elsewhere (the enclosing selection?)', w), f.loc,
+                           'type conditions nested under it are checked against the wrong type: impossible conditions are accepted'))
+
+
 def rule_cond_matrix(ctx):
     obs = []
+    _parent_type_table(ctx, obs)
     fn = ctx.fn('codegen', QMOD + '::selection::validate_type_conditions')
     if fn is None:
-        return [bad('COND-MATRIX', 'floor', 'anchor-missing: validate_type_conditions not found')]
+        return obs + [bad('COND-MATRIX', 'floor', 'anchor-missing: validate_type_conditions not found')]
     ms = [n for n in fn.walk(lambda n: n['k'] == 'match') if 'TypeId' in n['scrut'].get('ty', '')]
     # the match on the *parent* kind is the one whose arms contain rejecting returns
     cand = [m for m in ms if any(_contains_err_return(a['body']) for a in m['arms'])]
     if not cand:
-        return [undecided('COND-MATRIX', 'validate_type_conditions/shape', 'no kind-dispatching match with rejecting arms', fn.loc)]
+        return obs + [undecided('COND-MATRIX', 'validate_type_conditions/shape', 'no kind-dispatching match with rejecting arms', fn.loc)]
     m = cand[0]
     for kind in ('Union', 'Interface', 'Object'):
         i, arm = arm_for_kind(m, kind)
